@@ -448,6 +448,17 @@ def r4(facts):
                 ap = assign_parts(x)
                 if ap and obj(ap[0]).endswith('.op[1]') and obj(ap[1]).endswith('.op[0]'):
                     mir.append((b, j, st))
+                # .. or the same copy as memcpy(&x.op[1], &x.op[0], sizeof(whole voice))
+                if isinstance(x, dict) and short(callee_name(x) or '') in ('memcpy', 'memmove', '__builtin_memcpy') and len(x.get('a', [])) == 3:
+                    d_, s_ = strip(x['a'][0]), strip(x['a'][1])
+                    def addr_of(e_):
+                        e_ = strip(e_)
+                        while isinstance(e_, dict) and (e_.get('k') or '').endswith('CastExpr'):
+                            e_ = strip(e_.get('e'))
+                        return strip(e_['e']) if isinstance(e_, dict) and e_.get('k') == 'UnaryOperator' and e_.get('op') == '&' else None
+                    da, sa = addr_of(d_), addr_of(s_)
+                    if da is not None and sa is not None and obj(da).endswith('.op[1]') and obj(sa).endswith('.op[0]') and const_of(x['a'][2]) == ((da.get('t') or {}).get('sz')):
+                        mir.append((b, j, st))
         for b, j, st in mir:
             n += 1
             late = []
